@@ -136,7 +136,122 @@ def ctor_facts(program):
     # exclusivity check of the constructor
     return {'assigns': assigns, 'flag_attr': flag_attr, 'flag': flag_expr, 'loops': loops, 'line': fn.lineno, 'fn': fn}
 
+def _to_py(v):
+    from . import absint as A
+    if isinstance(v, A.AList):
+        return [_to_py(x) for x in v.items]
+    if isinstance(v, A.ADict):
+        return {k: _to_py(x) for k, x in v.items.items()}
+    if isinstance(v, A.AInt) and v.v is not None:
+        return v.v
+    if isinstance(v, A.AStr) and v.literal() is not None:
+        return v.literal()
+    if isinstance(v, bool) or v is None:
+        return v
+    if isinstance(v, tuple):
+        return tuple(_to_py(x) for x in v)
+    raise KeyError('not a shape value')
+
+def _from_py(v):
+    from . import absint as A
+    if isinstance(v, bool) or v is None:
+        return v
+    if isinstance(v, int):
+        return A.AInt(v)
+    if isinstance(v, str):
+        return A.AStr([('lit', v)])
+    if isinstance(v, (list, tuple, set)):
+        return A.AList([_from_py(x) for x in v])
+    if isinstance(v, dict):
+        return A.ADict({k: _from_py(x) for k, x in v.items()})
+    raise KeyError('value')
+
+_ctor_cache = {}
+
+def interp_ctor(program, exclude=(), include=(), dump=(), mfr_excl=(), mfr_incl=(), preferred=None, netmap=False):
+    """NMEA2000Decoder.__init__ interpreted (absint) on a concrete configuration -> {attribute: Python value} for every attribute that is a
+    shape value (lists of ints / strings, flags, sets as lists); raises absint.Unknown when the constructor is not interpretable"""
+    from . import absint as A
+    from .wire import is_logger
+    key = (id(program), tuple(exclude), tuple(include), tuple(dump), tuple(mfr_excl), tuple(mfr_incl), tuple(sorted((preferred or {}).items())), netmap)
+    if key in _ctor_cache:
+        return dict(_ctor_cache[key])
+    mod = program.mod('decoder')
+    fn = program.fn('decoder', f"{CLS}.__init__")
+    cls = program.cls('decoder', CLS)
+    methods = {n.name: n for n in cls.body if isinstance(n, (ast.FunctionDef, ast.AsyncFunctionDef))}
+    menv = A.ModuleEnv(mod.tree)
+    def hook(it, call, env):
+        name = ast.unparse(call.func)
+        if name in ('datetime.now', 'datetime.utcnow', 'time.time', 'time.monotonic'):
+            return A.AInt(5)
+        if name == 'open':
+            return A.AObj(dump_file=True)
+        if name.startswith('os.'):
+            return A.AOpaque(name)
+        return NotImplemented
+    dec = A.AObj()
+    dec.attrs.update(A.class_constants(None, cls))
+    given = {'exclude_pgns': list(exclude), 'include_pgns': list(include), 'dump_pgns': list(dump), 'exclude_manufacturer_code': list(mfr_excl),
+             'include_manufacturer_code': list(mfr_incl), 'preferred_units': dict(preferred or {}), 'build_network_map': netmap, 'dump_to_file': None}
+    params = [a.arg for a in fn.args.args][1:]
+    kw = {}
+    for p_ in params:
+        if p_ in given:
+            kw[p_] = _from_py(given[p_])
+    it = A.Interp(hook=hook, skip=is_logger, methods=methods, module=menv, classes={c: mod.classes[c] for c in mod.classes if c != CLS})
+    it.call_function(fn, [dec], kw)
+    out = {}
+    for k, v in dec.attrs.items():
+        try:
+            out[k] = _to_py(v)
+        except KeyError:
+            continue
+    _ctor_cache[key] = dict(out)
+    return out
+
+def attr_names(program, cf):
+    """{'exclude_pgns': (numbers attr, ids attr), 'include_pgns': .., 'dump_pgns': .., 'flag': attr}: from the structural reading when there is one,
+    else by probing the interpreted constructor with marked lists"""
+    if cf is not None:
+        out = dict(cf['assigns'])
+        out['flag'] = cf['flag_attr']
+        return out
+    out = {}
+    for param, kw in (('exclude_pgns', 'exclude'), ('include_pgns', 'include'), ('dump_pgns', 'dump')):
+        probe = interp_ctor(program, **{kw: [424242, 'ZzProbe']})
+        nums = [k for k, v in probe.items() if v == [424242]]
+        ids_ = [k for k, v in probe.items() if v == ['zzprobe']]
+        if len(nums) != 1 or len(ids_) != 1:
+            raise AnalysisError(f"attributes holding {param} not identified")
+        out[param] = (nums[0], ids_[0])
+    on = interp_ctor(program, exclude=[60928]); off = interp_ctor(program)
+    flags = [k for k in on if on.get(k) is True and off.get(k) is False]
+    if len(flags) != 1:
+        raise AnalysisError('claim-suppression flag not identified')
+    out['flag'] = flags[0]
+    return out
+
+def facts_or_none(program):
+    """the structural reading of split_pgn_list / __init__, or (None, None) when they are spelled another way (the interpreted constructor is used then)"""
+    try:
+        return split_facts(program), ctor_facts(program)
+    except AnalysisError:
+        return None, None
+
 def runtime_attrs(program, sf, cf, consts, exclude, include, dump=()):
+    from . import absint as A
+    try:
+        attrs = interp_ctor(program, exclude, include, dump)
+        # only what the configuration determines: run-time state the constructor merely initialises (source map, reassembly buffers, start time,
+        # dump file) is supplied by the model of each case
+        attrs = {k: v for k, v in attrs.items() if not (isinstance(v, dict) or k in ('started_at', 'dump_TextIOWrapper', 'logged_unsupported_pgns', 'build_network_map',
+                                                                                       'exclude_manufacturer_code', 'include_manufacturer_code'))}
+        if 'iso_claim_filter' in attrs or cf is None:
+            return attrs
+    except (A.Unknown, A.RaiseSignal):
+        if cf is None or sf is None:
+            raise teval.EvalUnknown('constructor neither interpretable nor of the recognised shape')
     a = cf['assigns']
     attrs = {}
     for param, lst in (('exclude_pgns', exclude), ('include_pgns', include), ('dump_pgns', dump)):
@@ -249,11 +364,26 @@ def spec_permitted(pgn, mid, exclude, include):
 
 def filter_table(chk, program, max_entries=2):
     consts = module_consts(program)
-    sf = split_facts(program)
-    cf = ctor_facts(program)
-    # FILTER-TYPE: element types
-    chk.check(sf['int_plain'] is True and sf['str_lower'] is True and sf['other_raises'], 'FILTER-TYPE', 'split_pgn_list', file=DEC, line=sf['line'], func='split_pgn_list',
-              expected='ints kept as given, strings lower-cased, anything else rejected', found={k: sf.get(k) for k in ('int', 'str', 'str_lower', 'int_plain', 'other_raises')})
+    sf, cf = facts_or_none(program)
+    # FILTER-TYPE: element types -- decided on the interpreted constructor: ints kept as given, strings lower-cased, anything else rejected
+    from . import absint as A
+    try:
+        a1 = interp_ctor(program, exclude=[5, 'AbC', 5])
+        try:
+            interp_ctor(program, exclude=[('tuple',)])
+            rejects = False
+        except A.RaiseSignal as r:
+            rejects = A.exc_kind(r) == 'ValueError'
+        okt = sorted(a1.get('exclude_pgns', [])) == [5, 5] and a1.get('exclude_pgns_ids') == ['abc'] and rejects
+        chk.check(okt, 'FILTER-TYPE', 'split_pgn_list', file=DEC, line=program.fn('decoder', f"{CLS}.__init__").lineno, func='split_pgn_list',
+                  expected='ints kept as given, strings lower-cased, anything else rejected with ValueError',
+                  found={'exclude_pgns=[5, "AbC", 5]': {k: a1.get(k) for k in ('exclude_pgns', 'exclude_pgns_ids')}, 'a tuple entry is rejected': rejects})
+    except (A.Unknown, A.RaiseSignal) as u:
+        if sf is None:
+            chk.unknown('FILTER-TYPE', 'split_pgn_list', f"constructor neither interpretable ({u}) nor of the recognised shape", DEC, 0)
+        else:
+            chk.check(sf['int_plain'] is True and sf['str_lower'] is True and sf['other_raises'], 'FILTER-TYPE', 'split_pgn_list', file=DEC, line=sf['line'], func='split_pgn_list',
+                      expected='ints kept as given, strings lower-cased, anything else rejected', found={k: sf.get(k) for k in ('int', 'str', 'str_lower', 'int_plain', 'other_raises')})
     stages = {'_decode': stage_events(program, '_decode'), '_call_decode_function': stage_events(program, '_call_decode_function')}
     db = program.db
     # stand-in messages from the database: an ordinary definition with an upper-case letter in its id, and the claim
@@ -280,7 +410,7 @@ def filter_table(chk, program, max_entries=2):
             try:
                 attrs = runtime_attrs(program, sf, cf, consts, excl, incl)
             except teval.EvalUnknown as u:
-                chk.unknown('FILTER-TABLE', '__init__', f"constructor expression not evaluable: {u}", DEC, cf['line'])
+                chk.unknown('FILTER-TABLE', '__init__', f"constructor expression not evaluable: {u}", DEC, cf['line'] if cf else 0)
                 return
             cases = [(P, ID, 'ordinary', None, 'no-entry')]
             for old_name, tag in ((None, 'no-entry'), (12345, 'same-NAME'), (999, 'other-NAME')):
